@@ -391,6 +391,16 @@ def run_check():
     for f in [0.04, 0.1, 0.25, 1.0]:
         if not close(float(celerity(f)), DEEP / f, rel=1e-15) or not close(float(wavelen(f)), DEEP / f ** 2, rel=1e-15):
             ck.fail("celerity", f"deep-water celerity/wavelen at f={f}", dict(f=f))
+    # the accessor forms (da.spec.celerity / wavelen, with and without depth) are the utils functions of the frequency coordinate
+    import xarray as xr
+
+    for h in [None, 3.0, 40.0]:
+        fq = np.geomspace(0.03, 0.8, 11)
+        da0 = xr.DataArray(np.ones((11, 4)), dims=("freq", "dir"), coords={"freq": fq, "dir": np.arange(4) * 90.0}, name="efth")
+        ca, la = da0.spec.celerity(depth=h), da0.spec.wavelen(depth=h)
+        cu, lu = celerity(da0.freq, h), wavelen(da0.freq, h)
+        if not (np.array_equal(ca.values, np.asarray(cu)) and np.array_equal(la.values, np.asarray(lu)) and ca.dims == ("freq",) and la.dims == ("freq",)):
+            ck.fail("celerity", f"SpecArray.celerity/wavelen(depth={h}) differ from utils.celerity/wavelen of the frequency coordinate", dict(depth=h))
     ck.extra["dispersion_sweep"] = dict(points=nsw, worst_residual=worst, note="exploration, not a theorem")
     twins(ck, npstats)
     ck.assumptions = ["exact-arithmetic model; float rounding absorbed by tolerances (1e-9 f64, 8e-6 f32)",
